@@ -6,9 +6,10 @@ package consensus
 import (
 	"fmt"
 	"os"
-	"strconv"
 	"runtime"
 	"sort"
+	"strconv"
+	"strings"
 	"sync"
 	"testing"
 	"time"
@@ -20,16 +21,16 @@ import (
 )
 
 type c01Config struct {
-	ByzPos   int    `json:"byz_pos"`   // the Byzantine validator is the proposer of this round (2 or 3: of neither round 0 nor 1)
-	Strategy string `json:"strategy"`  // voting behaviour of the Byzantine validator: silent | echo
-	Prop     string `json:"prop"`      // its behaviour as a proposer: none | one | split | invalid | pol
-	MaxRound int32  `json:"max_round"` // nodes are frozen when they leave rounds 0..MaxRound
-	MaxDev   int    `json:"max_dev"`   // deviations from the canonical schedule per execution
-	MaxByz   int    `json:"max_byz"`   // menu (free-form Byzantine) deliveries per execution; 0 = menu off
-	Eager    bool   `json:"eager_own"` // own messages are processed immediately (false: interleaved with peer input)
-	Stale    bool   `json:"stale_timeouts"`
-	Mode     string `json:"mode"` // "dev" deviation-bounded search | "bfs" breadth-first to MaxDepth
-	MaxDepth int    `json:"max_depth,omitempty"`
+	ByzPos   int     `json:"byz_pos"`   // the Byzantine validator is the proposer of this round (2 or 3: of neither round 0 nor 1)
+	Strategy string  `json:"strategy"`  // voting behaviour of the Byzantine validator: silent | echo | isolate
+	Prop     string  `json:"prop"`      // its behaviour as a proposer: none | one | split | invalid | pol
+	MaxRound int32   `json:"max_round"` // nodes are frozen when they leave rounds 0..MaxRound
+	MaxDev   int     `json:"max_dev"`   // deviations from the canonical schedule per execution
+	MaxByz   int     `json:"max_byz"`   // menu (free-form Byzantine) deliveries per execution; 0 = menu off
+	Eager    bool    `json:"eager_own"` // own messages are processed immediately (false: interleaved with peer input)
+	Stale    bool    `json:"stale_timeouts"`
+	Mode     string  `json:"mode"` // "dev" deviation-bounded search | "bfs" breadth-first to MaxDepth
+	MaxDepth int     `json:"max_depth,omitempty"`
 	Powers   []int64 `json:"powers,omitempty"` // voting powers by key (default 1,1,1,1); the Byzantine validator must hold < 1/3
 }
 
@@ -259,10 +260,16 @@ func c01Build(r *vr.Report, c c01Config) *c01Setup {
 				}
 			}
 		case "vote":
-			if c.Strategy == "echo" && !m.Byz && m.Round <= c.MaxRound {
+			if (c.Strategy == "echo" || c.Strategy == "isolate") && !m.Byz && m.Round <= c.MaxRound {
 				// the two-faced validator tells every node what that node wants to hear
 				v := m.mis[0].Msg.(*VoteMessage).Vote
-				out = append(out, dsPend(int32(w.byzVote(s.byz, v.Type, v.Round, v.BlockID)), byNode))
+				bid := v.BlockID
+				if c.Strategy == "isolate" && v.Type == tmproto.PrecommitType && byNode != 0 && !bid.IsZero() && !strings.HasPrefix(m.Block, "X") {
+					// ... except that its precommit for a block it did not propose itself goes to the first node only; the others get
+					// a precommit for nil (they reach the precommit timeout without deciding while the first node can decide)
+					bid = types.BlockID{}
+				}
+				out = append(out, dsPend(int32(w.byzVote(s.byz, v.Type, v.Round, bid)), byNode))
 			}
 		}
 		return out
@@ -376,6 +383,11 @@ func c01Configs() []c01Config {
 				cfgs = append(cfgs, c01Config{ByzPos: pos, Strategy: st, Prop: pr, MaxRound: 1, MaxDev: dev, Eager: true, Mode: "dev"})
 			}
 		}
+	}
+	// the classic split attempt: the faulty validator lets one node decide in round 0 (precommits for the block only to it, nil to the others)
+	// and proposes something else in round 1, with and without a claimed proof-of-lock round
+	for _, pr := range []string{"pol", "one"} {
+		cfgs = append(cfgs, c01Config{ByzPos: 1, Strategy: "isolate", Prop: pr, MaxRound: 1, MaxDev: dev, Eager: true, Mode: "dev"})
 	}
 	// unequal powers with a total that is 2 modulo 3 (the quorum arithmetic's rounding matters): 2,1,1,1; the faulty validator holds 1 of 5
 	skew := []int64{2, 1, 1, 1}
